@@ -1,8 +1,79 @@
 import Drive.Util
-/-! Trace validator for the `simd` stream(s).  (stub: to be filled in) -/
-namespace Drive.Simd
+import RV.Model.Simd
+/-!
+Trace validator for the `simd` stream (C20).
 
-def run (_h : IO.FS.Stream) : IO Verdict :=
-  return { ok := false, lines := 0, checks := 0, msg := "component simd not implemented" }
+Records (see harness/simd_test.go):
+* `arr <scheme> <len> <pat>` — the current array is the generator below, the memory behind
+  the slice is the tail pattern `pat`;
+* `raw <len> <ntail> w…`     — the current array and `ntail` words behind it, explicitly;
+* `q <k> <Search> <Naive>`   — the implementation's answers; the model recomputes
+  `RV.Simd.search` (the generated wrapper kernels around the generated assembly program, run
+  by the x86 interpreter on the slice *followed by that tail*) and `RV.Simd.naive`.
+-/
+namespace Drive.Simd
+open RV.Simd
+
+def maxU : BitVec 64 := 0xffffffffffffffff#64
+
+/-- key `j` of `m` (mirrors `simdKey`) -/
+def key (scheme m j : Nat) : BitVec 64 :=
+  match scheme with
+  | 0 => BitVec.ofNat 64 (3 * j + 3)
+  | 1 => BitVec.ofNat 64 (2 ^ 63 - 3 * (m / 2) + 3 * j)
+  | _ => BitVec.ofNat 64 (2 ^ 64 - 1 - 3 * (m - 1 - j))
+
+def val (j : Nat) : BitVec 64 := if j % 3 == 2 then 0#64 else maxU
+
+def tailPat (pat : Nat) (i : Nat) : BitVec 64 :=
+  if i % 2 == 1 || (pat >>> ((i / 2) % 4)) % 2 == 1 then maxU else 0#64
+
+def fill (scheme n : Nat) : Words :=
+  Array.ofFn (n := n) fun i => if i.val % 2 == 0 then key scheme (n / 2) (i.val / 2) else val (i.val / 2)
+
+structure St where
+  xs : Words := #[]
+  env : RV.Simd.Env := { base := 0xc000100000#64, cap := 0#64, regs := fun _ => 0xdeadbeefcafef00d#64, tail := fun _ => 0#64 }
+  have_ : Bool := false
+
+def mkEnv (n : Nat) (tail : Nat → BitVec 64) : RV.Simd.Env :=
+  { base := 0xc000100000#64, cap := BitVec.ofNat 64 (n + 64), regs := fun _ => 0xdeadbeefcafef00d#64, tail := tail }
+
+def showRes (r : Option (BitVec 16)) : String :=
+  match r with
+  | some v => toString v.toInt
+  | none => "⊥(panic/fault/out of fuel)"
+
+def step (st : St) (_n : Nat) (ws : List String) : Except String (St × Nat) :=
+  match ws with
+  | ["arr", scheme, n, pat] =>
+    match nat? scheme, nat? n, nat? pat with
+    | some scheme, some n, some pat =>
+      .ok ({ xs := fill scheme n, env := mkEnv n (tailPat pat), have_ := true }, 0)
+    | _, _, _ => .error "bad arr"
+  | "raw" :: n :: ntail :: rest =>
+    match nat? n, nat? ntail, rest.mapM u64? with
+    | some n, some ntail, some wsv =>
+      if wsv.length != n + ntail then .error "raw: wrong number of words" else
+      let all := wsv.toArray
+      let xs := all.extract 0 n
+      let tl : Nat → BitVec 64 := fun i => if i < ntail then all[n + i]! else maxU
+      .ok ({ xs := xs, env := mkEnv n tl, have_ := true }, 0)
+    | _, _, _ => .error "bad raw"
+  | ["q", k, s, nv] =>
+    if !st.have_ then .error "q before arr/raw" else
+    match u64? k, int? s, int? nv with
+    | some k, some s, some nv =>
+      let ms := search st.env st.xs k
+      let mn := naive st.xs k
+      if ms != some (BitVec.ofInt 16 s) then
+        .error s!"Search(len={st.xs.size}, k={k.toNat}): implementation {s}, model {showRes ms}"
+      else if mn != some (BitVec.ofInt 16 nv) then
+        .error s!"Naive(len={st.xs.size}, k={k.toNat}): implementation {nv}, model {showRes mn}"
+      else .ok (st, 2)
+    | _, _, _ => .error "bad q"
+  | _ => .error s!"unknown record {ws}"
+
+def run (h : IO.FS.Stream) : IO Verdict := runLines h ({} : St) step
 
 end Drive.Simd
